@@ -52,3 +52,19 @@ Qed.
 (* steps that do not write leave the store alone *)
 Lemma hist_query_noop cast st root f s : h_write s = false -> hist_step cast st root f s = f.
 Proof. intros E. unfold hist_step. rewrite E. reflexivity. Qed.
+
+(* what [hist_last_by] returns was written by a step of the history that satisfies the predicate, and no later
+   such step wrote anything *)
+Lemma hist_last_by_some cast p steps bs :
+  hist_last_by cast p steps = Some bs ->
+  exists pre s post, steps = pre ++ s :: post /\ h_write s = true /\ p s = true /\
+    write_api cast (h_api s) (h_mem s) = Written bs /\ hist_last_by cast p post = None.
+Proof.
+  induction steps as [|s rest IH]; intros H; [discriminate H|]. cbn [hist_last_by] in H.
+  destruct (hist_last_by cast p rest) as [bs'|] eqn:E.
+  - injection H as <-. destruct (IH eq_refl) as [pre [s' [post [-> R]]]].
+    exists (s :: pre), s', post. split; [reflexivity | exact R].
+  - destruct (h_write s) eqn:W; [|discriminate H]. destruct (p s) eqn:P; [|discriminate H]. cbn [andb] in H.
+    destruct (write_api cast (h_api s) (h_mem s)) as [b| |] eqn:Wr; try discriminate H. injection H as <-.
+    exists [], s, rest. repeat split; auto.
+Qed.
